@@ -555,6 +555,7 @@ func (r *runner) runBlock(steps []Step) {
 		r.desync = true
 		r.doubleSuccess(reqs, kinds)
 		r.staleWinner(reqs, kinds, before)
+		r.creationRefused(reqs, kinds)
 		for _, q := range reqs {
 			if q.closes || q.p == nil || q.p.RID == 0 || q.c.Ended() {
 				continue
@@ -778,6 +779,11 @@ func (r *runner) annotateBlock(kinds []string, reqs []*blockReq, note string) {
 			// joiner, but ahead of the SESSION_STATE that then overwrote it
 			mark = " [observer joined during the block and was relayed a change ahead of its SESSION_STATE]"
 		}
+		if len(v.Keys) > 0 && r.listOvertaken(reqs, who, v.Keys) {
+			// the known stale-snapshot window once more: the list answer was computed, a change
+			// of the very entry was relayed to the requester, then the (stale) answer was enqueued
+			mark += fmt.Sprintf(" [observer listed the type during the block and was relayed a change of the differing entry %v ahead of the list answer]", v.Keys)
+		}
 		if len(v.Keys) > 0 {
 			all := true
 			for _, k := range v.Keys {
@@ -844,6 +850,44 @@ func contended(reqs []*blockReq) map[string]bool {
 		}
 	}
 	return out
+}
+
+// listOvertaken: label issued a component list request in this block and, in its window, a
+// relay concerning every one of the given component keys precedes the list answer.
+func (r *runner) listOvertaken(reqs []*blockReq, label string, keys []string) bool {
+	var lister *blockReq
+	for _, q := range reqs {
+		if q.st.Op == "comp_list" && q.c.Label == label && q.p != nil {
+			lister = q
+		}
+	}
+	if lister == nil {
+		return false
+	}
+	seen := map[string]bool{}
+	for _, m := range lister.c.Since() {
+		if m.Type == 33 && m.ReqID == lister.p.RID {
+			break
+		}
+		var ec *hagallpb.EntityComponent
+		switch x := m.Msg.(type) {
+		case *hagallpb.EntityComponentAddBroadcast:
+			ec = x.GetEntityComponent()
+		case *hagallpb.EntityComponentUpdateBroadcast:
+			ec = x.GetEntityComponent()
+		case *hagallpb.EntityComponentDeleteBroadcast:
+			ec = x.GetEntityComponent()
+		}
+		if ec != nil {
+			seen[fmt.Sprintf("comp:%v", CKey{ec.GetEntityComponentTypeId(), ec.GetEntityId()})] = true
+		}
+	}
+	for _, k := range keys {
+		if !seen[k] {
+			return false
+		}
+	}
+	return true
 }
 
 // relayBeforeState: in its current window the client received a relay of someone else's change
@@ -922,6 +966,28 @@ func (r *runner) staleWinner(reqs []*blockReq, kinds []string, before map[int]*M
 				r.v("C09", "block-stale-winner", "%s", d)
 				r.v("C16", "older-action-accepted", "%s", d)
 				break
+			}
+		}
+	}
+}
+
+// creationRefused: a join that names no session creates one; nothing another connection does at
+// the same time can make "not found" (or any refusal) the answer.
+func (r *runner) creationRefused(reqs []*blockReq, kinds []string) {
+	for _, q := range reqs {
+		if q.p == nil || q.c.Ended() {
+			continue
+		}
+		jr, ok := q.p.Req.(*hagallpb.ParticipantJoinRequest)
+		if !ok || jr.SessionId != "" {
+			continue
+		}
+		for _, m := range q.c.Since() {
+			if e, ok := m.Msg.(*hagallpb.ErrorResponse); ok && m.ReqID == q.p.RID {
+				d := fmt.Sprintf("concurrent block %v: %s asked for a new session (join without session id) and was refused with code %v", kinds, q.c.Label, e.Code)
+				r.v("C07", "join-answer", "%s", d)
+				r.v("C04", "answer-wrong-outcome", "%s", d)
+				r.v("C03", "live-session-cut-off", "%s", d)
 			}
 		}
 	}
